@@ -1376,3 +1376,42 @@ def accept_wrappers(ctx, rid):
         ctx.check(rid, "Connection::%s asks the driver first on every path" % nm, bool(ps) and not bad,
                   "Connection::%s can return without (or decides before) awaiting Driver::%s: items already handed to the session's queue would never be delivered: %s" % (nm, nm, bad[:2]),
                   where(f), key="Connection::%s asks the driver first" % nm)
+
+
+# ------------------------------------------------------------------ buffer cursor accessors
+
+def buffer_accessors(ctx, rid):
+    """The accessors the size / capacity guards are written against mean what they say: `capacity()` is the room still free after the cursor
+    (octets `cap()`), `offset()` the cursor (octets `off()`), `buffer_written()` / `buffer_remaining()` the prefix / suffix at the cursor."""
+    A = ctx.A
+    want = {
+        "BufferReader::capacity": "return Octets::cap(self.0)",
+        "BufferReader::offset": "return Octets::off(self.0)",
+        "BufferReader::buffer": "return Octets::buf(self.0)",
+        "BufferReader::buffer_remaining": "return BufferReader::buffer(self)[BufferReader::offset(self)..]",
+        "BufferWriter::capacity": "return OctetsMut::cap(self.0)",
+        "BufferWriter::offset": "return OctetsMut::off(self.0)",
+        "BufferWriter::buffer_written": "return OctetsMut::buf(self.0)[..BufferWriter::offset(self)]",
+    }
+    for nm, w in want.items():
+        f = A.fn("wtransport_proto::bytes::" + nm)
+        ls = [path_sig(p)[1] for p in nonpanic(walk(f))]
+        ctx.check(rid, nm, ls == [w], "%s is %s, expected `%s`: every `capacity() < write_size()` guard and every consumed-bytes count is stated in terms of it" % (nm, ls, w[7:]), where(f))
+
+
+def slice_reader_advance(ctx, rid):
+    """`<&[u8] as BytesReader>::get_varint` consumes exactly the on-wire length of the varint (`parse_size(first byte)`), not the minimal length
+    of its value: a non-minimal encoding (legal in HTTP/3) must not leave bytes behind to be re-read as the next field."""
+    A = ctx.A
+    f = A.fn("<&[u8] as wtransport_proto::bytes::BytesReader>::get_varint")
+    ps = nonpanic(walk(f))
+    okp = [p for p in ps if path_sig(p)[1].startswith("return Option::Some")]
+    adv = [e for p in okp for e in event_strs(p) if e.startswith("store self :=")]
+    ctx.check(rid, "<&[u8]>::get_varint advances by parse_size(first)",
+              bool(adv) and all(re.match(r"^store self := self\[VarInt::parse_size\(ok\(<impl \[T\]>::first\(self\)\)\)\.\.\]$", e) for e in adv),
+              "<&[u8] as BytesReader>::get_varint does not advance by exactly the encoded length of the varint: %s" % adv, where(f))
+    f = A.fn("<&[u8] as wtransport_proto::bytes::BytesReader>::get_bytes")
+    ps = nonpanic(walk(f))
+    adv = [e for p in ps if path_sig(p)[1].startswith("return Option::Some") for e in event_strs(p) if e.startswith("store self :=")]
+    ctx.check(rid, "<&[u8]>::get_bytes advances by len", bool(adv) and all(e == "store self := self[len..]" for e in adv),
+              "<&[u8] as BytesReader>::get_bytes does not advance by exactly `len`: %s" % adv, where(f))
